@@ -183,6 +183,15 @@ def run(repo, R):
     R.floor("GUARD-ROOT", n_g, 8, "guarded updates")
     R.floor("FWD", len(sites.calls), 8, "density-primitive call sites")
     R.extra.update({"guarded_updates": n_g, "call_sites": len(sites.calls), "alpha_beta": "symbolic"})
+    # the three quantities are sums of derivatives of the reduced density matrix, of the density and of its Laplacian: they obey their
+    # definitions only if those routines do (C06, which in turn needs the orbital derivatives, C05)
+    from ..report import compose
+    from . import c06
+    used = ("evaluate_deriv_reduced_density_matrix", "evaluate_deriv_density", "evaluate_density_laplacian", "evaluate_density_using_evaluated_orbs",
+            "_eval_deriv_contractions", "_eval_first_second_order_deriv_contractions", "_first_derivative", "_second_derivative", "evaluate_deriv_basis",
+            "construct_array_contraction")
+    compose(R, "C06", c06.run, repo, keep=lambda fd: fd.site.split(".")[-1] in used,
+            why="stress tensor, Ehrenfest force and Hessian are linear combinations of the density-matrix derivative routines")
     R.assumptions += ["G(p,q) = G(q,p): the density matrix is symmetric (validated by the density routines)",
                       "evaluate_deriv_reduced_density_matrix / evaluate_deriv_density / evaluate_density_laplacian return G, R, LAP (decided under C06)"]
     return ("TERMALG: the three functions of stress_tensor.py are interpreted in the formal term algebra over Q[alpha, beta] generated "
